@@ -54,7 +54,38 @@ def stepOp (db : DB) (op : String) : String × DB :=
     | _, _, _, _ => ("bad-op", db)
   | _ => ("bad-op", db)
 
+/- second run (lib/babe call site), lines `b|op;op;...`:
+     vb <now> <slot> <kind> <idx> <var> <sealer> <tamper> <e>
+   = the C27 machine composed with "only headers whose slot claim and seal verify reach
+   CheckEquivocation", called with (slotNow = now, slot, header = the unsealed block, signer = idx).
+   Order of the checks in verifyAuthorshipRight: authority index, slot claim, seal, equivocation. -/
+def stepBabe (db : DB) (op : String) : String × DB :=
+  match words op with
+  | ["dump"] => (dump db, db)
+  | ["vb", a, b, k, i, v, s, t, e] =>
+    match parseU64? a, parseU64? b, parseU64? k, parseU64? i, parseU64? v, parseU64? s, parseU64? t,
+        parseU64? e with
+    | some now, some slot, some kind, some idx, some var, some sealer, some tamper, some exp =>
+      if now < 1 ∨ now > 1000000 ∨ kind < 1 ∨ kind > 2 ∨ (idx > 2 ∧ idx ≠ 5) ∨ var > 3 ∨ sealer > 3
+          ∨ tamper > 1 ∨ exp > 2 then ("bad-op", db)
+      else if idx > 2 then ("badidx", db)
+      else if kind = 2 ∧ idx ≠ exp then ("badclaim", db)
+      else if sealer ≠ idx ∨ tamper = 1 then ("badsig", db)
+      else
+        let hid := kind * 16 + idx * 4 + var
+        let r := mstep byteCodec (fun (x : UInt8) => x) db ⟨now, slot, UInt8.ofNat hid, UInt8.ofNat idx⟩
+        let call := s!" c={now}/{slot}/{idx}"
+        match r.1 with
+        | .none => ("ok" ++ call, r.2)
+        | .err => ("err" ++ call, r.2)
+        | .proof sl off x y => ("equiv" ++ call ++ s!" r={sl}/{off.toNat}/{x.toNat}/{y.toNat}", r.2)
+    | _, _, _, _, _, _, _, _ => ("bad-op", db)
+  | _ => ("bad-op", db)
+
 def step (line : String) : String :=
-  ";".intercalate (run stepOp ([] : DB) (line.splitOn ";")).1
+  if line.startsWith "b|" then
+    ";".intercalate (run stepBabe ([] : DB) ((String.ofList (line.toList.drop 2)).splitOn ";")).1
+  else
+    ";".intercalate (run stepOp ([] : DB) (line.splitOn ";")).1
 
 def main : IO Unit := runDriver step
